@@ -510,6 +510,10 @@ func (g *G) convTemplate(p *grl.Program) {
 		{f + ".U8", grl.Bin("/", grl.LitInt(g.R.PickInt64(7, 255, 510)), grl.LitInt(2))},
 		{f + ".I8", grl.Bin("-", grl.LitFloat(0.5), grl.LitInt(g.R.PickInt64(1, 100, 128)))},     // negative float -> int8 (toward zero)
 		{f + ".I32", grl.PathE(grl.P(o + ".U16"))},
+		{f + ".D", grl.PathE(grl.P(o + ".I"))},                                          // int64 -> named int64: same kind, other type
+		{f + ".Mn", grl.PathE(grl.P(o + ".F"))},                                         // float64 -> named float64
+		{f + ".Gr", grl.PathE(grl.P(o + ".U8"))},                                        // uint8 -> named uint8
+		{f + ".I", grl.PathE(grl.P(o + ".D"))},
 		{f + ".F32", grl.Bin("+", grl.PathE(grl.P(o+".I8")), grl.LitFloat(0.25))},
 		{f + ".F", grl.PathE(grl.P(o + ".U64"))},
 		{f + ".P.X", grl.PathE(grl.P(o + ".F"))},
